@@ -1,3 +1,4 @@
+import MimeModel.Gen.Writes
 import MimeModel.Model.Detect
 import MimeModel.Gen.Tree
 import MimeModel.Lemmas.JsonForward
@@ -373,6 +374,13 @@ theorem detect_json (ext : Ext) (D : Bytes) (v : J.JVal) (lim : Nat)
       simp
 
 end
+
+/-- regenerated tie: the pooled parser is handed back only in a `defer`, after `Parse` has read its
+    results out of it (otherwise a concurrent detection could reset it in between and a valid document
+    would be judged by another parse's flags) -/
+theorem tie_pool_put_deferred :
+    Gen.Writes.poolCalls = ["magic.newReader:readerPool.Get:direct", "magic.sv:readerPool.Put:deferred",
+      "json.Parse:parserPool.Get:direct", "json.Parse:parserPool.Put:deferred"] := by decide
 
 /-- regenerated tie: `Detect` / `DetectReader` load the limit once, atomically (see Lemmas/DetectTie.lean) -/
 theorem tie_single_limit : Mime.DetectTie.SingleLimit := Mime.DetectTie.single_limit
